@@ -294,8 +294,10 @@ class SyntaxCheckInstance(Visitor):
     def _visit_for(self, stmt: ForStmt, ctx: _Ctx):
         env = ctx.env
         self._visit_expr(stmt.iterable, ctx)
-        env = self._visit_binding(stmt.target, env)
-        body_env = self._visit_block(stmt.body, _Ctx(env, False))
+        # the target is bound only while the body runs: the loop may run
+        # zero times, so merge the body with the *pre-loop* environment
+        body_env = self._visit_binding(stmt.target, env)
+        body_env = self._visit_block(stmt.body, _Ctx(body_env, False))
         return env.merge(body_env)
 
     def _visit_context(self, stmt: ContextStmt, ctx: _Ctx):
